@@ -41,7 +41,9 @@ CHECKS = {
             'executed under several independently drawn simulated kernels (parked-fork scheduler deciding every '
             'worker release, pre-emption point and exit visibility; seeded temp names, listing order, clock) and, '
             'across shards, under two PYTHONHASHSEEDs; one canonical digest per scenario, plus a write-set isolation '
-            'monitor and a bounded-liveness rule. Evidence, not proof: schedules and worlds are sampled.',
+            'monitor and a bounded-liveness rule. Stages: mapping (file and manager transport), statistics, reference '
+            'markers, p-value mask, markers from the mask, query markers, parallel transposition, and the on-the-fly-marker '
+            'mapper (three pools in one run; argschema constructor stubbed). Evidence, not proof: schedules and worlds are sampled.',
             'everything is decided by the simulator: same scenario under many seeded schedules, name streams, listing '
             'orders, clocks and hash seeds must give one digest per stage. Trusted base: the kernel (sim/kernel.py), '
             'the reduction argument that interleavings finer than one I/O seam event are equivalent while worker write '
@@ -72,7 +74,8 @@ CHECKS = {
             'For each sampled (world, pooled stage) the grid worker x {SIGKILL, exit non-zero, raise} x {before, mid at the '
             'k-th I/O seam event, after} is enumerated COMPLETELY, each cell under a freshly drawn random schedule; oracle: '
             'the call raises, a failed mapping writes no results/CSV/success message but writes its log, other stages leave '
-            'nothing their real consumer accepts. Complete per world, sampled over worlds and schedules.',
+            'nothing their real consumer accepts; the on-the-fly-marker mapper (every worker of its three pools) is judged as '
+            'a mapping run. Complete per world, sampled over worlds and schedules.',
             'everything is decided by the simulator: stage x worker x failure mode x crash point, under random schedules. '
             'Real SIGKILL / os._exit / exception in genuinely forked workers. Mid-way points are I/O seam events, not '
             'arbitrary instructions.',
@@ -92,7 +95,7 @@ CHECKS = {
             'common seed; the pairing itself is the oracle.',
             TECH + ': differential pairs executed under independent seeded schedules (weak fit)', '5 C17'),
     'C19': ('exploration',
-            'Seeded search over histories of up to 6 stage runs sharing scratch and output directories, with injected worker '
+            'Seeded search over histories of up to 6 stage runs (incl. mapping with on-the-fly markers) sharing scratch and output directories, with injected worker '
             'deaths, full disk, parent I/O errors, stale files planted under every name pattern the stages use, a complete '
             'run nested at a yield point of another (concurrent runs), clock freezes/jumps. After every operation: inputs '
             'byte-identical, scratch listing unchanged, new files only at requested outputs, result equal to a clean-room '
@@ -103,7 +106,7 @@ CHECKS = {
             TECH + ': seeded histories with fault injection, footprint and clean-room differential oracles', '5 C19'),
     'C20': ('exploration',
             'Fault injection reaches the message space: random directory layouts with punctuation-laden names x {success, '
-            'worker death, full disk, parent I/O error, 20 classes of invalid input} with cloud_safe=True; config and log of '
+            'worker death, full disk, parent I/O error, 20 classes of invalid input} x {mapping, mapping with on-the-fly markers} with cloud_safe=True; config and log of '
             'the JSON output, config and log of the HDF5 metadata and the log file are scanned for absolute paths that '
             'exist on the host, by an extractor independent of the repository\'s is_exposed.',
             'failing runs are produced by injected faults (worker death, disk full, parent I/O error, corrupt inputs) and by '
@@ -133,7 +136,9 @@ CHECKS = {
             'Full four-stage pipeline per generated world (statistics, reference markers, query markers, mapping), each pool '
             'under its own seeded random schedule, chained through files; the query holds every leaf centroid read from the '
             'statistics file, declared normalised, columns permuted; the bootstrap draws are recorded and the property\'s '
-            'own precondition is evaluated on them before a centroid is judged.',
+            'own precondition is evaluated on them before a centroid is judged. In 30% of the pipelines the truncation stage '
+            'runs between statistics and markers; in 30% the same composition is run again through the on-the-fly-marker '
+            'entry point and must give identical markers and results.',
             'all four stages, each with its pool under a random schedule, chained through files; separable-cluster '
             'generation is input generation; the precondition check runs on the recorded draws.',
             TECH + ': end-to-end pipeline under seeded schedules with recorded randomness', '5 C18'),
